@@ -1,6 +1,6 @@
 #![allow(non_camel_case_types, non_snake_case, dead_code)]
 #[tarpc::service]
-pub trait Rej79 {
-    async fn new(a0: i32, a1: String) -> i32;
+pub trait Rej70 {
+    async fn a_b(ctx: tarpc::context::Context) -> String;
 }
 fn main() {}
